@@ -209,6 +209,21 @@ func genRestartPhaseClients(r *ssched.Rand, body *RestartBody, phase int, uniq *
 		}
 		out = append(out, cs)
 	}
+	if r.Intn(3) == 0 {
+		// a client that takes persist-immediately holds on keys of its own and releases them at once
+		// (the LOCK record may still be queued in its persistence channel when the UNLOCK record is pushed)
+		cs := ClientSpec{Kind: "mem", StartMs: r.Intn(500)}
+		for i, n := 0, 10+r.Intn(50); i < n; i++ {
+			key := 20 + r.Intn(12)
+			lid := 40 + r.Intn(3)
+			db := uint8(body.Dbs[r.Intn(len(body.Dbs))])
+			cs.Ops = append(cs.Ops, OpSpec{Cmd: 1, Key: key, Lid: lid, Db: db, Expried: []uint16{30, 300}[r.Intn(2)], EFlag: efAof0, Count: 0, DelayMs: r.Intn(40)})
+			if r.Intn(4) > 0 {
+				cs.Ops = append(cs.Ops, OpSpec{Cmd: 2, Key: key, Lid: lid, Db: db})
+			}
+		}
+		out = append(out, cs)
+	}
 	return out
 }
 
